@@ -43,7 +43,8 @@ def rule_rewrite_order(ctx: Ctx) -> None:
     edge_src = None
     for n in ast.walk(l):
         if isinstance(n, ast.Assign) and norm(n.targets[0]) == norm(ins.args[1]):
-            edge_src = norm(n.value)
+            from ..core import expand as _expand
+            edge_src = norm(_expand(fn, n.value))
     if base is not None and base.endswith(".unwrap()") and d == 1 and edge_src is not None and "in_edges(" in edge_src:
         ctx.ok("order.wrapper", m, l, what="unwrap_nodes inserts unwrap()'s application sequence in order, each before the wrapper node")
     else:
